@@ -160,10 +160,23 @@ def finish(prop, tier, seed, results, known, wall, verbose):
     assumed = set()
     solver_secs = 0.0
     per_kind = {}
+    fallback = []
     for r in results:
         c = S.REGISTRY[r['key']]
         if r['status'] != 'ok':
-            undecided.append('%s: %s: %s' % (r['key'], r['status'], r['message']))
+            # the function is outside the verifier's reach on this tree (a construct without model, a callee without contract,
+            # a contract that names a local which no longer exists). On the pinned tree every function under contract is within
+            # reach, so this only happens after a change: the native demonstrations written for this function's clauses are
+            # run against the real code. A failing input found that way is a violation (bounded, with the program as replay);
+            # without one the function stays undecided.
+            msg = '%s: %s: %s' % (r['key'], r['status'], r['message'])
+            if c.custom is None and (prop in c.serves or prop == 'ALL') and os.environ.get('VERIF_WRITE_BASELINE') != '1':
+                o_ = {'name': '%s/outside-reach:%s' % (r['key'], r['status']), 'kind': 'outside-reach', 'func': c.name, 'line': 0, 'model': {},
+                      'detail': 'not verifiable on this tree (%s); native demonstration of the clauses this function serves' % str(r['message'])[:300],
+                      'props': list(c.serves), 'status': 'unknown', 'native_only': True}
+                fallback.append((o_, msg))
+            else:
+                undecided.append(msg)
             continue
         mine = [o for o in r['obligations'] if prop in o['props'] or prop == 'ALL']
         funcs.append({'function': r['func'], 'contract': r['key'], 'file': r['file'], 'line': r['line'],
@@ -293,6 +306,14 @@ def finish(prop, tier, seed, results, known, wall, verbose):
             print('VIOLATION property=%s replay=%s' % (prop, rp_))
             print('  bounded stand-in failed natively: %s: %s' % (nm_, (out_ or '').strip().splitlines()[-1][:300] if out_ else ''))
     real_viol = []
+    if fallback:
+        from engine import replay
+        for o_, msg in fallback:
+            path, reproduced = replay.write_replay(prop, o_)
+            if reproduced:
+                real_viol.append((o_, path, True))
+            else:
+                undecided.append(msg)
     if viol:
         from engine import replay
         seen = set()
